@@ -4,13 +4,16 @@ PROPERTY THEOREMS ONLY.
 
 Writer part: statements about the labelled transition system `Hts.Model.WriterLTS` of the writer protocol
 REPAIRED by fixes/C09-1 (`cfg.repaired = true`): for every writer concurrency, every script, every
-interleaving and EVERY fault oracle of the underlying writer (`cfg.fault i` = the i-th underlying Write fails).
+interleaving and EVERY fault oracle: of the underlying writer (`cfg.fault i` = the i-th underlying Write fails)
+and of compression (`cfg.cfault b` = `compressor.writeBlock` of block b fails, e.g. ErrBlockOverflow with a huge
+gzip header; the `c.err` branch of `writeOK`).
 The unchanged protocol (`cfg.repaired = false`) is kept in the same model and its dead state is pinned by
 `writer_deadlock_witness`.  Traces are newest-event-first.
 Reader part: the sequential reader over a fault-injecting source (`Hts.Model.ReaderFaults`).
 -/
 import Hts.Lemmas.WriterLTSAcc
 import Hts.Lemmas.WriterLTSWitness
+import Hts.Lemmas.WriterLTSComp
 import Hts.Lemmas.ReaderFaults
 namespace Hts.Props.C09
 open Hts.Model.WriterLTS
@@ -110,6 +113,16 @@ theorem writer_no_write_after_failure (hr : cfg.repaired = true) {tr post mid : 
     (h : Run cfg tr s) (htr : tr = post ++ .uw b false :: mid) : ∀ b' ok, .uw b' ok ∉ post :=
   no_write_after_failure hr h htr
 
+/-- A `Close` that returns after the compression of any block submitted before it has failed returns an error
+    (`m` = blocks submitted when Close returned). -/
+theorem writer_compress_error_latched (hr : cfg.repaired = true) {tr : List Ev} {r : Res} {m b : Nat}
+    (h : Run cfg tr s) (hmem : .ret .close r m ∈ tr) (hb : b < m) (hc : cfg.cfault b = true) : r = .err :=
+  close_err_after_cfault hr h hmem hb hc
+
+/-- A block whose compression failed is never delivered to the underlying writer (either protocol variant). -/
+theorem writer_failed_block_not_delivered (h : Reachable cfg s) : ∀ b ∈ s.out, cfg.cfault b = false :=
+  reachable_out_ok h
+
 /-! ### the unchanged protocol dead-locks (DESIGN §6 #22): pinned counterexample -/
 
 /-- wc = 1 (two compressors), `Write` of two blocks then `Close`; the first underlying write fails -/
@@ -170,6 +183,24 @@ theorem writer_wait_nil_after_failure_witness :
     refine ⟨_, _, rfl, ?_, ?_⟩ <;> decide
   obtain ⟨tr, s, h1, h2, h3⟩ := h
   exact ⟨tr, s, runTrace_run h1 .init, h2, h3⟩
+
+/-- On the unchanged protocol a compression failure (`c.err != nil`) returns from `writeOK` without `qwg.Done()`:
+    `Flush; Wait` with the flushed block's compression failing parks `Wait` for ever. -/
+def witnessCompCfg : Cfg :=
+  { wc := 1, script := [.flush true, .wait], fault := fun _ => false, repaired := false, cfault := fun _ => true }
+
+def witnessCompSchedule : List Label :=
+  [.api, .api, .api, .api,       -- Flush: block 0 queued, returns nil
+   .api, .api,                   -- Wait called, latch clear, blocks on qwg
+   .em, .finE, .em, .em, .em]    -- emitter: c.err != nil → setErr, compressor back to `waiting`, leaves its loop
+
+theorem writer_compress_wait_deadlock_witness :
+    ∃ s, Reachable witnessCompCfg s ∧ s.api = .wtBlock ∧ s.pending = 1 ∧ ¬ AllIdle s ∧ ¬ ∃ t, Step witnessCompCfg s t := by
+  have h : ∃ s, runLabels witnessCompCfg (init witnessCompCfg) witnessCompSchedule = some s ∧ s.api = .wtBlock ∧
+      s.pending = 1 ∧ ¬ AllIdle s ∧ succs witnessCompCfg s = [] := by
+    refine ⟨_, rfl, ?_, ?_, ?_, ?_⟩ <;> decide
+  obtain ⟨s, h1, h2, h3, h4, h5⟩ := h
+  exact ⟨s, runLabels_reachable h1 .init, h2, h3, h4, no_step_of_succs_nil h5⟩
 
 /-! ### non-vacuity -/
 
